@@ -40,3 +40,9 @@ Proof.
   - apply smono_regs; [|exact Mono]. destruct Is as [L _], Is' as [L' _]. rewrite L, L'.
     unfold ss_merge. destruct (params_mergeable (ss_par s) (ss_par o)); reflexivity.
 Qed.
+
+(* the hypotheses are met by every reachable state: a new sketcher satisfies the invariant (ss_new_inv), an item, a merge and a
+   reinit keep it (ss_item_inv, ss_merge_inv, ss_reinit_inv); a concrete instance *)
+Example closure_hypotheses_hold :
+  let p := mkSP 4 62 65535 2 20 in ssinv (ss_new p) /\ (1 <= sp_m (ss_par (ss_new p)))%nat.
+Proof. cbv zeta. split; [apply ss_new_inv; cbn; lia|cbn; lia]. Qed.
